@@ -92,7 +92,8 @@ def encFixed (tot : Nat) : List Field → List Val → Option Bytes
   | .blob _ n :: L, .raw b :: vs =>
       if b.length = n then (encFixed tot L vs).map (b ++ ·) else none
   | .zstr _ n :: L, .raw b :: vs =>
-      if b.length ≤ n then (encFixed tot L vs).map (b ++ zeros (n - b.length) ++ ·) else none
+      -- `_packzs` refuses a string with a NUL in it (the field ends at the first NUL), `_validate` one that is too long
+      if b.length ≤ n ∧ b.all (· ≠ 0) = true then (encFixed tot L vs).map (b ++ zeros (n - b.length) ++ ·) else none
   | .lenSelf w :: L, vs =>
       if tot < 256 ^ w then (encFixed tot L vs).map (beEnc w tot ++ ·) else none
   | .const w v :: L, vs =>
